@@ -138,14 +138,20 @@ fn main() {
             "sleep" => std::thread::sleep(std::time::Duration::from_millis(p[1].parse().unwrap())),
             "readeof" => {
                 let mut n = 0usize;
+                let mut h: u32 = 0x811c9dc5;
                 let mut buf = [0u8; 65536];
                 loop {
                     match io::stdin().read(&mut buf) {
                         Ok(0) | Err(_) => break,
-                        Ok(k) => n += k,
+                        Ok(k) => {
+                            n += k;
+                            for &c in &buf[..k] {
+                                h = (h ^ c as u32).wrapping_mul(0x01000193);
+                            }
+                        }
                     }
                 }
-                more.push_str(&format!("stdin_eof bytes={} at_ms={}\n", n, t0.elapsed().as_millis()));
+                more.push_str(&format!("stdin_eof bytes={} at_ms={} fnv={}\n", n, t0.elapsed().as_millis(), h));
                 std::fs::write(&rep_path, format!("{}{}", rep, more)).ok();
             }
             "cat" | "tagcat" => {
